@@ -6,8 +6,16 @@
     in rulefmt.go.  Only the FIRST document is loaded.  The second, position-only decode of rulefmt.Parse
     (into structs with yaml.Node fields, unknown fields allowed) fails only where the first one does.
 
+    Null handling (decode.go prepare/scalar/null): only a SCALAR can be a null — one whose ShortTag is !!null and that
+    yaml.v3's resolve() maps to nil (oracle null_ok: `~`, `null`, empty, ...).  A scalar explicitly tagged !!null whose text
+    does not resolve to null (`!!null x`) makes every decode of that node fail; when it is a quoted text (`!!null "x"`) it is
+    an ordinary string for a string target and a type error for every other target (prepare() skips the Unmarshaler hook of
+    model.Duration for null-tagged nodes).  A mapping or sequence carrying an explicit !!null tag is decoded as a
+    mapping / sequence (the collection decoders never look at the tag).
+
     Oracles (Section variables, no assumed behaviour):
       str_ok / int_ok    the scalar node decodes into a Go string / int (yaml.v3 resolve + overflow rules)
+      null_ok            the scalar node resolves to null (decoding it into an interface{} yields nil)
       expr_ok dur_ok dur_zero metric_ok lname_ok lvalue_ok tmpl_ok   Prometheus library verdicts on a string. *)
 From Coq Require Import List String Ascii Arith Bool.
 From PintV Require Import Common.Bytes Model.Yaml.
@@ -55,36 +63,40 @@ Record prule := {
 Record pgroup := { pg_name : string; pg_labels : list (string * string); pg_rules : list prule }.
 
 Section PromLoader.
-  Variables str_ok int_ok : node -> bool.
+  Variables str_ok int_ok null_ok : node -> bool.
   Variables expr_ok dur_ok dur_zero metric_ok lname_ok lvalue_ok tmpl_ok : string -> bool.
+
+  (** a scalar that yaml.v3 decodes as null (d.null: zero value, "not good") *)
+  Definition null_scalar (t : node) : bool := (String.eqb (n_tag t) nullTag && null_ok t)%bool.
 
   (** unmarshal into a Go string *)
   Definition dec_string (n : node) : dres string :=
     let t := deref n in
-    if String.eqb (n_tag t) nullTag then DNull
-    else match n_kind t with
-         | KScalar => if str_ok t then DOk (n_value t) else DErr
-         | KZero => DNull
-         | _ => DErr
-         end.
+    match n_kind t with
+    | KScalar => if null_scalar t then DNull else if str_ok t then DOk (n_value t) else DErr
+    | KZero => DNull
+    | _ => DErr
+    end.
 
   (** unmarshal into a Go int *)
   Definition dec_int (n : node) : dres unit :=
     let t := deref n in
-    if String.eqb (n_tag t) nullTag then DNull
-    else match n_kind t with
-         | KScalar => if int_ok t then DOk tt else DErr
-         | KZero => DNull
-         | _ => DErr
-         end.
-
-  (** unmarshal into model.Duration (UnmarshalYAML: string, then ParseDuration) *)
-  Definition dec_duration (n : node) : dres string :=
-    match dec_string n with
-    | DOk s => if dur_ok s then DOk s else DErr
-    | DNull => DNull
-    | DErr => DErr
+    match n_kind t with
+    | KScalar => if null_scalar t then DNull else if int_ok t then DOk tt else DErr
+    | KZero => DNull
+    | _ => DErr
     end.
+
+  (** unmarshal into model.Duration (UnmarshalYAML: string, then ParseDuration); for a null-tagged node prepare() does not
+      call UnmarshalYAML: a text that is no null is then decoded into the int64 directly and fails *)
+  Definition dec_duration (n : node) : dres string :=
+    let t := deref n in
+    if (kind_eqb (n_kind t) KScalar && String.eqb (n_tag t) nullTag && negb (null_ok t))%bool then DErr
+    else match dec_string n with
+         | DOk s => if dur_ok s then DOk s else DErr
+         | DNull => DNull
+         | DErr => DErr
+         end.
 
   Definition mem_key (s : string) (l : list string) : bool := mem_str s l.
 
@@ -165,15 +177,15 @@ Section PromLoader.
   (** A node decoded into a struct: DNull for null, DErr for a non-mapping or a type error. *)
   Definition dec_fields (known : option (list string)) (n : node) : dres (list (string * node)) :=
     let t := deref n in
-    if String.eqb (n_tag t) nullTag then DNull
-    else match n_kind t with
-         | KMapping => match map_fields (S (node_height t)) known t None with
-                       | Some (a, _) => DOk a
-                       | None => DErr
-                       end
-         | KZero => DNull
-         | _ => DErr
-         end.
+    match n_kind t with
+    | KMapping => match map_fields (S (node_height t)) known t None with
+                  | Some (a, _) => DOk a
+                  | None => DErr
+                  end
+    | KScalar => if null_scalar t then DNull else DErr
+    | KZero => DNull
+    | _ => DErr
+    end.
 
   (** map[string]string *)
   Fixpoint strmap_values (l : list (string * node)) : option (list (string * string)) :=
@@ -210,12 +222,12 @@ Section PromLoader.
 
   Definition dec_slice {A} (dec : node -> dres A) (n : node) : dres (list A) :=
     let t := deref n in
-    if String.eqb (n_tag t) nullTag then DNull
-    else match n_kind t with
-         | KSequence => match dec_items dec (n_content t) with Some l => DOk l | None => DErr end
-         | KZero => DNull
-         | _ => DErr
-         end.
+    match n_kind t with
+    | KSequence => match dec_items dec (n_content t) with Some l => DOk l | None => DErr end
+    | KScalar => if null_scalar t then DNull else DErr
+    | KZero => DNull
+    | _ => DErr
+    end.
 
   Definition rule_fields := ["record"; "alert"; "expr"; "for"; "keep_firing_for"; "labels"; "annotations"].
   Definition group_fields := ["name"; "interval"; "query_offset"; "limit"; "rules"; "labels"].
